@@ -129,6 +129,25 @@ def run(cx: Cx):
             cx.violation('R-GUARD', rem.qualname, 'drops-exactly-the-named-column',
                          f"remove_cell_component must drop exactly the column `name`, after establishing that it exists (found "
                          f"{[(e.data.get('store'), repr(dict(e.data.get('kw', ())).get('columns'))) for e in st]})", where=cx.where(rem), path=p.lines())
+    # only an unknown name is rejected: every cell component that exists can be removed
+    for p in cx.walker.paths(rem, WalkOptions(unroll=1, callee_raises=False)):
+        if p.end == 'raise' and p.last.data.get('exc') == 'ComponentNotFoundError' and implies(p.cond, f_not(AIn(rn, rcells))) is not None:
+            cx.violation('R-GUARD', rem.qualname, 'only-unknown-names-are-rejected',
+                         f"remove_cell_component rejects a name under [{p.cond!r}], which does not establish that the name is unknown: an "
+                         f"existing cell component with such a name cannot be removed", where=cx.where(rem, p.last.line), path=p.lines())
+            break
+    else:
+        cx.ok('R-GUARD', 'remove_cell_component rejects unknown names only', where=cx.where(rem), function=rem.qualname)
+    # adding a cell component writes that one column and nothing else: in particular it never drops a column first (the source may
+    # read the existing column, and a failing source must leave the table as it was)
+    extra = [(w, ch) for w, ch in cx.effects.trans_writes(add) if w.loc == (DW, 'cells') and w.owner_q != add.qualname]
+    if extra:
+        w, ch = extra[0]
+        cx.violation('R-ATOMIC', add.qualname, 'add-writes-only-the-new-column',
+                     f"add_cell_component also changes the cell table through {' -> '.join(ch)} ({w.describe()}): a column is gone before "
+                     f"the new values exist, so a source that reads it (or fails) loses the existing component", where=w.where)
+    else:
+        cx.ok('R-ATOMIC', 'add_cell_component writes the cell table only by storing the new column', where=cx.where(add), function=add.qualname)
     sites = cx.effects.sites_of((DW, 'cells'))
     allowed = {DW + '.__init__', add.qualname, rem.qualname}
     for s in sites:
